@@ -562,6 +562,13 @@ func (c *Chain) updateState(ctx context.Context,
 		}
 	}
 
+	// validate the transfers queued by the transaction and by the smart contract it
+	// called: the sender is debited at most value+fee and every signed transfer carries
+	// a valid signature of its source (the check above ran before anything was queued)
+	if err = sctx.Validate(); err != nil {
+		return nil, err
+	}
+
 	ue := make(map[string]*event.User)
 	for _, transfer := range sctx.GetTransfers() {
 		tEvents, err := c.transferAmountWithAssert(sctx, transfer.ClientID, transfer.ToClientID, transfer.Amount)
